@@ -1378,6 +1378,19 @@ func (c *Conn) concurrency() int {
 	return int(atomic.LoadInt32(&c.inflight))
 }
 
+// abortRead closes the connection after a response could not be read to its
+// end. It must be called with the read lock held.
+//
+// Closing the network connection is not enough: other requests may already
+// have been written, their callers are waiting in waitResponse, and the bytes
+// of the broken response that are still in the read buffer would be served to
+// them by Peek as if they were the header of the next response. The buffered
+// bytes are dropped, so the next read hits the closed connection.
+func (c *Conn) abortRead() {
+	c.conn.Close()
+	c.rbuf.Discard(c.rbuf.Buffered())
+}
+
 func (c *Conn) do(d *connDeadline, write func(time.Time, int32) error, read func(time.Time, int) error) error {
 	id, err := c.doRequest(d, write)
 	if err != nil {
@@ -1392,7 +1405,7 @@ func (c *Conn) do(d *connDeadline, write func(time.Time, int32) error, read func
 	if err = read(deadline, size); err != nil {
 		var kafkaError Error
 		if !errors.As(err, &kafkaError) {
-			c.conn.Close()
+			c.abortRead()
 		}
 	}
 
@@ -1545,7 +1558,7 @@ func (c *Conn) ApiVersions() ([]ApiVersion, error) {
 		}
 	}
 	if err != nil && !errors.As(err, &kafkaError) {
-		c.conn.Close()
+		c.abortRead()
 		return nil, err
 	}
 	return r, err
